@@ -554,7 +554,8 @@ class Engine:
                 path.oblige("hint", nm[5:], cond)
                 path.assume(cond)
             else:
-                path.oblige("post", nm, cond)
+                # a postcondition decided by evaluation on this path (concrete True) is still named in the census
+                path.oblige("post", nm, z3.BoolVal(True) if cond is True else cond)
 
     def _check_raise(self, path, c, args, exc):
         matched = False
